@@ -95,14 +95,19 @@ def build(case):
             eff.setdefault(round(row["onset"] + (delay or 0), 6), []).append((r, len(texts), kind, name))
             idx += 1
         onsets.append(repr(float(row["onset"])))
-        heds.append(", ".join(texts) if texts else "n/a")
+        heds.append("Zzunknowntag" if row.get("noise") else (", ".join(texts) if texts else "n/a"))
     times = sorted(eff)
     tps = [[(k, n) for (_, _, k, n) in sorted(eff[t])] for t in times]
     row_tp = {}
     for ti, t in enumerate(times):
         for (r, _, _, _) in eff[t]:
             row_tp[r] = ti
-    return pd.DataFrame({"onset": onsets, "HED": heds}), tps, row_tp
+    df = pd.DataFrame({"onset": onsets, "HED": heds})
+    if len(heds) % 2 == 1 and len(heds) > 1:
+        # a frame whose index is not 0..n-1 (what is left after filtering or re-ordering another frame)
+        lab = [3 * i + 7 for i in range(len(heds))]
+        df.index = lab[len(lab) // 2:] + lab[:len(lab) // 2]
+    return df, tps, row_tp
 
 
 _hook = {"installed": False, "log": None}
@@ -130,6 +135,11 @@ def check_case(case, rec):
     schema = env.schema("8.3.0")
     dd = DefinitionDict(DEFS, schema)
     df, tps, row_tp = build(case)
+    order = case.get("order")
+    if order:
+        # the same rows written in another order in the file: validation sorts by onset, labels follow the rows
+        df = df.iloc[order].reset_index(drop=True)
+        row_tp = {new: row_tp[old] for new, old in enumerate(order) if old in row_tp}
     want_counts, want_states = model(tps)
     _hook["log"] = []
     try:
@@ -139,8 +149,16 @@ def check_case(case, rec):
         rec.violation(f"file validation raised {type(ex).__name__}", case)
         return
     log, _hook["log"] = _hook["log"], None
+    noise_rows = {r for r, row in enumerate(case["rows"]) if row.get("noise")}
+    if order:
+        noise_rows = {new for new, old in enumerate(order) if old in noise_rows}
+    for r in noise_rows:
+        if not any(i["code"] == "TAG_INVALID" and i.get("ec_row") == r + 2 for i in issues):
+            rec.violation("a row holding an unknown tag is not reported on that row", dict(case, row=r))
+            return
     others = sorted({i["code"] for i in issues if i["severity"] == 1 and i["code"] not in
-                     ("TEMPORAL_TAG_ERROR", "TAG_EXPRESSION_REPEATED")})
+                     ("TEMPORAL_TAG_ERROR", "TAG_EXPRESSION_REPEATED")
+                     and not (i["code"] == "TAG_INVALID" and i.get("ec_row", 0) - 2 in noise_rows)})
     if others:
         rec.violation("harness: generated file draws unrelated errors", dict(case, observed=others))
         return
@@ -201,7 +219,22 @@ def random_case(rng):
             src = min(src, t)
             delayed_rows.append(dict(onset=src, groups=[[k, nm, t - src] for k, nm in chunk]))
     allrows = sorted(rows + delayed_rows, key=lambda r: r["onset"])
-    return dict(rows=allrows, layout="random", history=[list(h) for h in history])
+    if rng.random() < 0.3:
+        # rows that fail their own checks (an unknown tag) and hold no marker: skipped by the temporal pass, they must
+        # not disturb the bookkeeping of the other rows
+        for _ in range(rng.randrange(1, 3)):
+            t = rng.choice(allrows)["onset"] + rng.choice([-0.375, 0.375, 0.6875])
+            taken = [r["onset"] for r in allrows] + [r["onset"] + (g[2] or 0) for r in allrows for g in r["groups"]]
+            if t > 0 and all(abs(t - u) > 1e-6 for u in taken):
+                allrows.append(dict(onset=t, groups=[], noise=True))
+        allrows = sorted(allrows, key=lambda r: r["onset"])
+    case = dict(rows=allrows, layout="random", history=[list(h) for h in history])
+    if len({r["onset"] for r in allrows}) == len(allrows) and len(allrows) >= 2 and rng.random() < 0.35:
+        order = list(range(len(allrows)))
+        rng.shuffle(order)
+        case["order"] = order
+        case["layout"] = "random-unsorted"
+    return case
 
 
 def run_shard(shard, rec):
@@ -231,7 +264,7 @@ def run_shard(shard, rec):
             check_case(case, rec)
             if rng.random() < 0.02:
                 rec.sample(case)
-        rec.count("layout", "random", shard["n"])
+            rec.count("layout", case["layout"])
 
 
 def replay(case, rec):
